@@ -182,9 +182,16 @@ def run(ctx, prop):
             continue
         case = dict(m=line["m"], dict=line["dict"], src=line["src"], bytes=line["bytes"] if line["ev"] == "wire" else [], style=line.get("style", ""))
         if i in attributed:
+            explained = set()
             for n, ur in attributed[i]:
+                explained.update(ur)
                 first = [r for r in ORDER if r in ur][0]
                 v.report("%s:%s:%s" % (line["ev"], first, leaf_class(n)), case, detail="reasons=%s rerr=%s (attributed by shrinking)" % (rs, line.get("rerr")))
+            # what no single AVP of the message shows alone is a failure of the combination (e.g. the AVPs
+            # behind one that is mis-sized can no longer be read): it is not covered by a finding about that AVP
+            rest = [r for r in ORDER if r in rs and r not in explained]
+            if rest:
+                v.report("%s:%s:combination" % (line["ev"], rest[0]), case, detail="reasons=%s unexplained=%s rerr=%s; beyond what the single AVPs show alone" % (rs, rest, line.get("rerr")))
         else:
             first = [r for r in ORDER if r in rs][0]
             v.report("%s:%s:combination" % (line["ev"], first), case, detail="reasons=%s rerr=%s; no single AVP fails alone" % (rs, line.get("rerr")))
